@@ -280,9 +280,9 @@ func (e *Env) genesis(app *simapp.SimApp, valSet *cmttypes.ValidatorSet) []byte 
 // NewWorld boots a node and performs the seed-independent set-up blocks:
 // channel handshakes, Hyperlane objects, initial outward transfers that give the
 // remote users vouchers (and the A-end escrows their funds).
-func NewWorld() *Node {
+func NewWorld(onBoot func(n *Node)) *Node {
 	env := newEnv()
-	n := &Node{Env: env, db: dbm.NewMemDB(), now: GenesisTime}
+	n := &Node{Env: env, db: dbm.NewMemDB(), now: GenesisTime, OnBoot: onBoot}
 	priv := ed25519.GenPrivKeyFromSecret([]byte("orbsim/validator"))
 	n.valSet = cmttypes.NewValidatorSet([]*cmttypes.Validator{cmttypes.NewValidator(priv.PubKey(), 1)})
 	n.Boot()
